@@ -1,4 +1,4 @@
-import JaqalProofs.Lemmas.ExpandMacrosSyn
+import JaqalProofs.Lemmas.ExpandMacrosClass
 /-!
 # C04 — macro expansion preserves meaning
 
@@ -60,7 +60,7 @@ theorem C04_meaning (ρ : Env) (p : Bool) (c c' : Circuit) (s : Sem) (hwf : Well
     (h : expandMacros p c = .ok c') (hm : meaning ρ c = .ok s) : meaning ρ c' = .ok s := by
   obtain ⟨body, stmts, hb, hs, rfl⟩ := expand_ok h
   simp only [WellFormed, Bool.and_eq_true] at hwf
-  obtain ⟨⟨hwm, hwb⟩, hshape⟩ := hwf
+  obtain ⟨⟨⟨⟨hwm, hwb⟩, hshape⟩, _⟩, _⟩ := hwf
   -- the body is an ordinary sequential block
   cases hcb : c.body with
   | gate n gd a => rw [hcb] at hshape; cases hshape
@@ -211,6 +211,42 @@ theorem C04_idempotent (p : Bool) (c c' : Circuit) (sub : Bool) (it : Val) (b : 
     simp only [expStmt_fixed _ _ _ hnc' hnf, bind, Except.bind, statementsOf, pure, Except.pure]
     cases p <;> rfl
 
+theorem WellFormed_body_block {c : Circuit} (hwf : WellFormed c = true) : ∃ it b, c.body = .block false false it b := by
+  simp only [WellFormed, Bool.and_eq_true] at hwf
+  obtain ⟨⟨⟨_, hshape⟩, _⟩, _⟩ := hwf
+  cases hcb : c.body with
+  | gate n gd a => rw [hcb] at hshape; cases hshape
+  | loop n b => rw [hcb] at hshape; cases hshape
+  | block par sub it b0 =>
+    rw [hcb] at hshape
+    cases par <;> cases sub <;> first | exact ⟨it, b0, rfl⟩ | cases hshape
+
+/-- **C04_total_class.** On a well-formed circuit every rejection is a `JaqalError`: no `TypeError`, `AttributeError`
+or `KeyError` escapes from the substitution, the re-indexing of qubits or the re-validation of gate statements, and —
+the macro table being acyclic — the recursion through nested calls ends (no `RecursionError`). -/
+theorem C04_total_class (p : Bool) (c : Circuit) (hwf : WellFormed c = true) :
+    ∀ err, expandMacros p c = .error err → ∃ r, err = .jaqal r := by
+  obtain ⟨it, b0, hcb⟩ := WellFormed_body_block hwf
+  simp only [WellFormed, Bool.and_eq_true, List.all_eq_true] at hwf
+  obtain ⟨⟨⟨⟨hwm, _⟩, _⟩, hTb⟩, hTm⟩ := hwf
+  have hcall := replaceGate_class c.macros hwm hTm c.macros.length c.macros.length (Nat.le_refl _)
+  rw [List.take_length] at hcall
+  have hexp := expStmt_class _ _ _ hcall c.body hTb (inScope_all _ _)
+  have h : JaqalOnly (expandMacros p c) := by
+    unfold expandMacros
+    apply JaqalOnly.bind hexp
+    intro body hbody
+    rw [hcb] at hbody
+    simp only [expStmt, bind, Except.bind] at hbody
+    cases hl : expList (replaceGate c.macros c.macros.length) false b0 with
+    | error e => rw [hl] at hbody; cases hbody
+    | ok l =>
+      rw [hl] at hbody; simp only at hbody
+      have := mkBlock_ok hbody; subst this
+      simp only [statementsOf]
+      exact JaqalOnly.bind (JaqalOnly.pure _) (fun _ _ => JaqalOnly.pure _)
+  exact h
+
 /-! ## Non-vacuity -/
 
 def exX : GateDef := { name := "X", tag := .native, params := [("q", .qubit)], hasUnitary := true }
@@ -252,6 +288,20 @@ example : expandMacros false { exCircuit with body := .block false false (.int 1
     = .error (.jaqal "wrong-argument-count") :=
   C04_arity_first _ _ (.int 1) "F" exFdef [("x", .int 1)] [] exF rfl rfl (by decide)
 
+/-- `F r[0] 7`: well formed, and rejected (the substituted index `r[7]` is out of range) — with a `JaqalError`,
+as `C04_total_class` says -/
+def exBad : Circuit :=
+  { exCircuit with body := .block false false (.int 1) [.gate "F" exFdef [("x", .qubit "r[0]" exR (.int 0)), ("i", .int 7)]] }
+
+example : WellFormed exBad = true ∧ ∃ r, expandMacros false exBad = .error (.jaqal r) := ⟨by decide, _, rfl⟩
+
+/-- the hypothesis matters: a (hand-built) macro that calls itself is not well formed, and the expansion does not end -/
+def exCyclic : Circuit :=
+  { macros := [Macro.mk "A" [] (.block false false (.int 1) [.gate "A" (GateDef.mk "A" DefTag.macro [] false) []])],
+    body := .block false false (.int 1) [.gate "A" (GateDef.mk "A" DefTag.macro [] false) []] }
+
+example : WellFormed exCyclic = false ∧ expandMacros false exCyclic = .error (.other "RecursionError") := ⟨by decide, rfl⟩
+
 end Jaqal.ExpandMacros
 
 #print axioms Jaqal.ExpandMacros.C04_meaning
@@ -262,3 +312,4 @@ end Jaqal.ExpandMacros
 #print axioms Jaqal.ExpandMacros.C04_arity_first
 #print axioms Jaqal.ExpandMacros.C04_shape
 #print axioms Jaqal.ExpandMacros.C04_idempotent
+#print axioms Jaqal.ExpandMacros.C04_total_class
